@@ -1,9 +1,10 @@
 SPECIFICATION Spec
 CONSTANTS
-  Deviations <- NoDevs
-  RuleSets <- TinySets
-  MaxDepth = 1
+  Deviations <- RealDevs
+  RuleSets <- T_mul1
+  MaxDepth = 2
   Wide = FALSE
 INVARIANT PropertyHolds
+INVARIANT DeviationsExplain
 INVARIANT Emit
 CHECK_DEADLOCK FALSE
